@@ -98,80 +98,27 @@ func C06(c *Ctx) {
 		}
 		r.Check(sameOriginValue(c.identityOrigins(c.Origins(fire.Req)), putRecv), "C06.revoke-subject", name, "FireAfter(EventRecoverEnd).request", posf(c, fire.Call), "request context carries the user whose password changed", "request handed to the event does not carry the user whose password was changed")
 	}
-	// wiring in remember
-	if c.P.ByPath[RepoPath+"/remember"] != nil {
-		ws := c.wireFind(false, re, "ab/remember")
-		if len(ws) == 0 {
-			r.Bad("C06.wire", "(*ab/remember.Remember).Init", "After(EventRecoverEnd)", "-", "remember registers no handler on After(EventRecoverEnd)")
-		}
-		for _, w := range ws {
-			if w.Handler == nil {
-				r.Unknown("C06.wire", FuncName(w.In), "After(EventRecoverEnd)", posf(c, w.Call), "handler unresolved")
-				continue
-			}
-			r.Ok("C06.wire", FuncName(w.In), "After(EventRecoverEnd)->"+w.Name, posf(c, w.Call), "registered")
-			h := w.Handler
-			hn := FuncName(h)
-			dels := CallsTo(h, fnDelRemember)
-			if len(dels) == 0 {
-				r.Bad("C06.revoke", hn, "DelRememberTokens", "-", "handler does not delete the account's remember tokens")
-			}
-			for _, d := range dels {
-				// the subject is the user the firing handler put into the request
-				// (CurrentUser prefers it); the browser's own session identity
-				// (CurrentUserID, GetSession) is a different account in general
-				isCtxUser := func(o Origin) bool {
-					return o.Kind == "call" && (strings.HasPrefix(o.Name, fnCurrentUser+"#") || strings.HasPrefix(o.Name, fnCurrentUserP+"#"))
-				}
-				pidOrigins := c.Origins(Arg(d, 1))
-				pidOK := HasOrigin(pidOrigins, isCtxUser)
-				for _, o := range pidOrigins {
-					if o.Kind == "call" && !isCtxUser(o) {
-						pidOK = false
-					}
-				}
-				r.Check(pidOK, "C06.revoke", hn, "DelRememberTokens.pid", posf(c, d), "deletes the tokens of the context user's PID", "PID passed to DelRememberTokens is not the context user's (origins: "+names(c.Origins(Arg(d, 1)))+")")
-				k, _ := c.errHandling(d)
-				okE := k == "returned" || k == "tested"
-				if k == "tested" {
-					okE, _ = c.errPropagated(d)
-				}
-				// returned directly counts
-				if e := ErrResult(d); e != nil && e.Referrers() != nil {
-					for _, ref := range *e.Referrers() {
-						if _, isRet := ref.(*ssa.Return); isRet {
-							okE = true
-						}
-					}
-				}
-				r.Check(okE, "C06.revoke", hn, "DelRememberTokens.err", posf(c, d), "error returned to the recover handler", "error of DelRememberTokens is not returned")
-				// unconditional: every non-error path of the handler passes it
-				q := PathQuery{StartBlock: h.Blocks[0], Cut: func(i ssa.Instruction) bool { return i == d.(ssa.Instruction) }, Goal: func(i ssa.Instruction) bool {
-					ret, ok := i.(*ssa.Return)
-					return ok && !c.isErrorExit(ret)
-				}}
-				if p := q.Find(); p != nil {
-					r.Bad("C06.revoke", hn, "DelRememberTokens|all paths", posf(c, d), "handler can return without error and without deleting the tokens", c.P.DescribePath(p)...)
-				} else {
-					r.Ok("C06.revoke", hn, "DelRememberTokens|all paths", posf(c, d), "every non-error return passes it")
-				}
-			}
-			rm := c.P.ConstString("", "CookieRemember")
-			hasDelCookie := false
-			for _, op := range c.StateOps(h) {
-				if op.Op == "del" && op.Store == "cookie" && op.Key == rm {
-					hasDelCookie = true
-				}
-			}
-			r.Check(hasDelCookie, "C06.revoke", hn, "DelCookie(rm)", c.P.Pos(h.Pos()), "this browser's cookie removed", "handler does not delete the remember cookie")
-		}
-	}
+	c.rememberRevokeWire("C06.wire", "C06.revoke")
+	c.readerVerbatim("C06.reader")
 
 	// (3) UpdatePassword
 	un := FuncName(upd)
 	dels := CallsTo(upd, fnDelRemember)
 	if len(dels) == 0 {
 		r.Bad("C06.update-revoke", un, "DelRememberTokens", "-", "UpdatePassword never deletes remember tokens")
+	}
+	// every successful return has changed and saved the password: no shortcut
+	// (e.g. "same password as before") may skip the save and the revocation
+	{
+		q := PathQuery{StartBlock: upd.Blocks[0], Cut: IsCallTo(fnSave), Goal: func(i ssa.Instruction) bool {
+			ret, ok := i.(*ssa.Return)
+			return ok && !c.isErrorExit(ret)
+		}}
+		if p := q.Find(); p != nil {
+			r.Bad("C06.update-always", un, "Save on every success path", c.P.Pos(upd.Pos()), "UpdatePassword can report success without saving a new password hash (and therefore without revoking the remember tokens): a caller who rotates a password, even to the same value, is told that outstanding tokens are gone when they are not", c.P.DescribePath(p)...)
+		} else {
+			r.Ok("C06.update-always", un, "Save on every success path", c.P.Pos(upd.Pos()), "every non-error return passes Save")
+		}
 	}
 	for _, s := range CallsTo(upd, fnSave) {
 		failedAssert := func(f Fact) bool {
@@ -288,4 +235,80 @@ func retStringSource(v ssa.Value) ssa.Value {
 			return v
 		}
 	}
+}
+
+// rememberRevokeWire: remember registers, on After(EventRecoverEnd), a handler
+// that deletes the context user's remember tokens and this browser's cookie.
+func (c *Ctx) rememberRevokeWire(ruleWire, ruleRevoke string) {
+	r := c.R
+	re := c.Event("EventRecoverEnd")
+	// wiring in remember
+	if c.P.ByPath[RepoPath+"/remember"] != nil {
+		ws := c.wireFind(false, re, "ab/remember")
+		if len(ws) == 0 {
+			r.Bad(ruleWire, "(*ab/remember.Remember).Init", "After(EventRecoverEnd)", "-", "remember registers no handler on After(EventRecoverEnd)")
+		}
+		for _, w := range ws {
+			if w.Handler == nil {
+				r.Unknown(ruleWire, FuncName(w.In), "After(EventRecoverEnd)", posf(c, w.Call), "handler unresolved")
+				continue
+			}
+			r.Ok(ruleWire, FuncName(w.In), "After(EventRecoverEnd)->"+w.Name, posf(c, w.Call), "registered")
+			h := w.Handler
+			hn := FuncName(h)
+			dels := CallsTo(h, fnDelRemember)
+			if len(dels) == 0 {
+				r.Bad(ruleRevoke, hn, "DelRememberTokens", "-", "handler does not delete the account's remember tokens")
+			}
+			for _, d := range dels {
+				// the subject is the user the firing handler put into the request
+				// (CurrentUser prefers it); the browser's own session identity
+				// (CurrentUserID, GetSession) is a different account in general
+				isCtxUser := func(o Origin) bool {
+					return o.Kind == "call" && (strings.HasPrefix(o.Name, fnCurrentUser+"#") || strings.HasPrefix(o.Name, fnCurrentUserP+"#"))
+				}
+				pidOrigins := c.Origins(Arg(d, 1))
+				pidOK := HasOrigin(pidOrigins, isCtxUser)
+				for _, o := range pidOrigins {
+					if o.Kind == "call" && !isCtxUser(o) {
+						pidOK = false
+					}
+				}
+				r.Check(pidOK, ruleRevoke, hn, "DelRememberTokens.pid", posf(c, d), "deletes the tokens of the context user's PID", "PID passed to DelRememberTokens is not the context user's (origins: "+names(c.Origins(Arg(d, 1)))+")")
+				k, _ := c.errHandling(d)
+				okE := k == "returned" || k == "tested"
+				if k == "tested" {
+					okE, _ = c.errPropagated(d)
+				}
+				// returned directly counts
+				if e := ErrResult(d); e != nil && e.Referrers() != nil {
+					for _, ref := range *e.Referrers() {
+						if _, isRet := ref.(*ssa.Return); isRet {
+							okE = true
+						}
+					}
+				}
+				r.Check(okE, ruleRevoke, hn, "DelRememberTokens.err", posf(c, d), "error returned to the recover handler", "error of DelRememberTokens is not returned")
+				// unconditional: every non-error path of the handler passes it
+				q := PathQuery{StartBlock: h.Blocks[0], Cut: func(i ssa.Instruction) bool { return i == d.(ssa.Instruction) }, Goal: func(i ssa.Instruction) bool {
+					ret, ok := i.(*ssa.Return)
+					return ok && !c.isErrorExit(ret)
+				}}
+				if p := q.Find(); p != nil {
+					r.Bad(ruleRevoke, hn, "DelRememberTokens|all paths", posf(c, d), "handler can return without error and without deleting the tokens", c.P.DescribePath(p)...)
+				} else {
+					r.Ok(ruleRevoke, hn, "DelRememberTokens|all paths", posf(c, d), "every non-error return passes it")
+				}
+			}
+			rm := c.P.ConstString("", "CookieRemember")
+			hasDelCookie := false
+			for _, op := range c.StateOps(h) {
+				if op.Op == "del" && op.Store == "cookie" && op.Key == rm {
+					hasDelCookie = true
+				}
+			}
+			r.Check(hasDelCookie, ruleRevoke, hn, "DelCookie(rm)", c.P.Pos(h.Pos()), "this browser's cookie removed", "handler does not delete the remember cookie")
+		}
+	}
+
 }
